@@ -116,7 +116,10 @@ class C13Death(Prop):
                     dead = True
                 if o[0] == 'cb' and o[2] == 'single' and dead:
                     o[2] = 'list'
-            yield {'tasks': tasks, 'ops': ops}
+            c = {'tasks': tasks, 'ops': ops}
+            if rng.random() < 0.3:
+                c['descr_shared'] = True
+            yield c
         # a state notification for a task and the death of its pilot handled by two threads at once
         # (tmgr state subscriber vs. the pilot manager's callback thread): one is held after its k-th line
         curs = ['TMGR_SCHEDULING', 'AGENT_EXECUTING_PENDING', 'AGENT_EXECUTING', 'AGENT_STAGING_OUTPUT', 'CANCELED']
@@ -158,10 +161,18 @@ class C13Death(Prop):
             advs.append(dict(items=[[int(t['uid'].split('.')[1]), state or t['state']] for t in things],
                              publish=publish, push=push))
         tm.advance = advance
+        shared = rp.TaskDescription({'executable': 'true'}) if case.get('descr_shared') else None
         for u, st, p in case['tasks']:
-            td = rp.TaskDescription({'executable': 'true', 'uid': tuid(u)})
-            t = Task(tm, td, 'client')
-            t._state, t._pilot = st, puid(p)
+            if shared is not None:
+                # one description object used as a template for all submissions, as applications do:
+                # Pilot.submit_tasks() stamps descr.pilot, then the Task is built from it
+                shared.uid, shared.pilot = tuid(u), puid(p)
+                t = Task(tm, shared, 'client')
+                t._state = st
+            else:
+                td = rp.TaskDescription({'executable': 'true', 'uid': tuid(u)})
+                t = Task(tm, td, 'client')
+                t._state, t._pilot = st, puid(p)
             tm._tasks[t.uid] = t
         pilots = {}
 
